@@ -61,6 +61,7 @@ def corpus_specs(ctx):
 
 
 def run(ctx):
+    ctx.translate(["flagsites"])
     proofs_ok, driver_ok = ctx.build_lean(["Oas3Model.Props.C18"])
     if proofs_ok:
         ctx.audit("Oas3Model.Props.C18")
